@@ -921,7 +921,7 @@ func ruleLibParse(c *Ctx, r *R) {
 					if callee == nil || callee.Pkg == nil {
 						continue
 					}
-					if callee.Pkg.Pkg.Path() == "strconv" && (callee.Name() == "ParseFloat" || callee.Name() == "ParseInt" || callee.Name() == "ParseUint") {
+					if callee.Pkg.Pkg.Path() == "strconv" && (callee.Name() == "ParseFloat" || callee.Name() == "ParseInt" || callee.Name() == "ParseUint" || callee.Name() == "Atoi") {
 						parseCalls = append(parseCalls, x)
 					}
 					if callee.Pkg.Pkg.Path() == "regexp" && strings.HasPrefix(callee.Name(), "Match") || callee.Pkg.Pkg.Path() == "regexp" && strings.HasPrefix(callee.Name(), "Find") {
@@ -938,7 +938,9 @@ func ruleLibParse(c *Ctx, r *R) {
 			name := pc.Call.StaticCallee().Name()
 			key := fmt.Sprintf("%s:%s#%d", ssaFuncName(fn), name, i+1)
 			site := c.Pos(instrPos(pc))
-			if why := parseInputIsRegexpMatch(c, fn, pc); why != "" {
+			if name == "Atoi" {
+				r.ok(key+":grammar", site, "strconv.Atoi is base 10 without prefixes or separators: it accepts an optionally signed run of decimal digits only, all of it ES5 syntax")
+			} else if why := parseInputIsRegexpMatch(c, fn, pc); why != "" {
 				r.ok(key+":grammar", site, why)
 			} else if inStringLiteralValue(c, fn) && c.eClean("SPEC-string-escape") {
 				r.ok(key+":grammar", site, "the digits of an escape sequence; "+subsumedBy("SPEC-string-escape")+" (its literals include signs, underscores and non-digits after the escape character)")
@@ -949,6 +951,17 @@ func ruleLibParse(c *Ctx, r *R) {
 				r.check(okGuard, key+":grammar", site, "dominated by a regexp guard that rejects every Go-only numeric form", fmt.Sprintf("strconv.%s accepts more than the ES5 grammar; in %s the dominating regexp guard must reject every Go-only form and accept every ES5 form: it lets through / wrongly rejects %s", name, ssaFuncName(fn), leak))
 			}
 			_ = regexpGuard
+			// an integer parser whose result becomes a Number: the integer has no negative zero, so "-0" (a valid
+			// StrDecimalLiteral, value -0: ES5 9.3.1) must not reach it
+			if name != "ParseFloat" && len(fn.Params) >= 1 && fn.Signature.Results().Len() == 1 && typeStr(fn.Signature.Results().At(0).Type()) == "float64" && intResultToFloat(pc) {
+				old := goOnlyNumericForms
+				goOnlyNumericForms = []string{"-0", "-00", "-0000000000"}
+				grammarCutOnly = true
+				okGuard, _ := grammarGuardedAt(c, fn, pc, pc.Call.Args[0])
+				goOnlyNumericForms, grammarCutOnly = old, false
+				r.check(okGuard, key+":negzero", site, "no spelling of negative zero reaches the integer parser (a guard on every path rejects `-0`)",
+					fmt.Sprintf("%s converts text to a Number through strconv.%s and float64(...) with nothing on the path that keeps `-0` away from it: an integer has no negative zero, so Number(\"-0\") becomes +0 and 1/Number(\"-0\") is Infinity instead of -Infinity (ES5 9.3.1: the MV of -0 is -0)", ssaFuncName(fn), name))
+			}
 			if name == "ParseFloat" {
 				if _, ok := libParseRangeReviewed[ssaFuncName(fn)]; ok {
 					r.ok(key+":range:reviewed", site, libParseRangeReviewed[ssaFuncName(fn)])
@@ -982,6 +995,31 @@ var goOnlyNumericForms = []string{"inf", "Inf", "+inf", "-Inf", "infinity", "INF
 
 // ES5 §9.3.1 StringNumericLiteral forms (after white space is stripped): every one must convert to a number.
 var es5NumericForms = []string{"0", "7", "007", "5.", ".5", "5.5", "5e3", "5E3", "5.e3", "5.5e3", ".5e3", ".5e-3", "5e+3", "+1", "-1", "+.5", "-5.", "Infinity", "+Infinity", "-Infinity", "0x1F", "0XaB", "0x0"}
+
+// grammarCutOnly: grammarGuardedAt is asked only whether every path to the call takes an edge that rejects the probes
+// (not whether a full-match regexp also accepts every ES5 form).
+var grammarCutOnly bool
+
+// intResultToFloat: the integer result of the parse call is converted to a floating-point number.
+func intResultToFloat(pc *ssa.Call) bool {
+	if pc.Referrers() == nil {
+		return false
+	}
+	for _, ref := range *pc.Referrers() {
+		ex, ok := ref.(*ssa.Extract)
+		if !ok || ex.Index != 0 || ex.Referrers() == nil {
+			continue
+		}
+		for _, r2 := range *ex.Referrers() {
+			if cv, ok := r2.(*ssa.Convert); ok {
+				if bt, ok := cv.Type().Underlying().(*types.Basic); ok && bt.Info()&types.IsFloat != 0 {
+					return true
+				}
+			}
+		}
+	}
+	return false
+}
 
 // grammarGuarded: some If on the result of <regexp global>.MatchString(input) dominates the parse call such that the
 // call is reachable only when the regexp matched, and that regexp (a constant pattern) rejects every Go-only form.
@@ -1085,27 +1123,48 @@ func grammarGuardedAt(c *Ctx, fn *ssa.Function, at ssa.Instruction, input ssa.Va
 		}
 	}
 	if len(guardEdges) > 0 {
-		seen := map[*ssa.BasicBlock]bool{}
-		var reach func(x *ssa.BasicBlock) bool
-		reach = func(x *ssa.BasicBlock) bool {
+		// the search knows the value a flag has on the edge it came by: `if flag` on a merge of constants (set in the arms
+		// of a switch above) continues only on the side that value selects
+		seen := map[edge]bool{}
+		var reach func(x, prev *ssa.BasicBlock) bool
+		reach = func(x, prev *ssa.BasicBlock) bool {
 			if x == at.Block() {
 				return true
 			}
-			if seen[x] {
+			if seen[edge{prev, x}] {
 				return false
 			}
-			seen[x] = true
-			for _, s2 := range x.Succs {
-				if guardEdges[edge{x, s2}] {
+			seen[edge{prev, x}] = true
+			only := -1
+			if iff, ok := x.Instrs[len(x.Instrs)-1].(*ssa.If); ok && prev != nil {
+				cond, neg := normBool(iff.Cond)
+				if phi, ok := cond.(*ssa.Phi); ok && phi.Block() == x {
+					for i, p := range x.Preds {
+						if p != prev || i >= len(phi.Edges) {
+							continue
+						}
+						if k, ok := phi.Edges[i].(*ssa.Const); ok && k.Value != nil && k.Value.Kind() == constant.Bool {
+							v := constant.BoolVal(k.Value) != neg
+							if v {
+								only = 0
+							} else {
+								only = 1
+							}
+						}
+					}
+				}
+			}
+			for i, s2 := range x.Succs {
+				if guardEdges[edge{x, s2}] || (only >= 0 && i != only) {
 					continue
 				}
-				if reach(s2) {
+				if reach(s2, x) {
 					return true
 				}
 			}
 			return false
 		}
-		if !reach(fn.Blocks[0]) {
+		if !reach(fn.Blocks[0], nil) {
 			// completeness of a full-match regexp guard is still checked by the loop below when it is the only guard
 			onlyRegexp := true
 			for e := range guardEdges {
@@ -1116,7 +1175,7 @@ func grammarGuardedAt(c *Ctx, fn *ssa.Function, at ssa.Instruction, input ssa.Va
 					}
 				}
 			}
-			if !onlyRegexp {
+			if !onlyRegexp || grammarCutOnly {
 				return true, ""
 			}
 		}
